@@ -3,6 +3,7 @@ package c11
 import (
 	"fmt"
 	"reflect"
+	"strings"
 )
 
 // outcome of the reference for one call.
@@ -20,6 +21,7 @@ const (
 type plan struct {
 	out      outcome
 	why      string          // reason for oErr / oWeak / oNoCrash
+	nilPtr   bool            // contains the nil-pointer re-typing shape (known host panic)
 	whyCell  string          // the cell without conversion when why == "noconv"
 	params   []reflect.Value // expected parameters, len == ft.NumIn() (variadic tail as its slice)
 	loose    []bool          // per parameter: nil/empty containers not distinguished
@@ -56,7 +58,7 @@ func planCall(ft reflect.Type, args []reflect.Value, hasSpread bool, spread refl
 
 	conv := func(i int, v reflect.Value, T reflect.Type) (reflect.Value, bool) {
 		r := goConvert(v, T)
-		p.cells = append(append(p.cells, r.cell+[]string{" ok", " none", " unasserted"}[r.st]), r.sub...)
+		p.cells = append(append(p.cells, r.cell+stName[r.st]), r.sub...)
 		switch r.st {
 		case cNone:
 			if p.out != oErr {
@@ -66,6 +68,9 @@ func planCall(ft reflect.Type, args []reflect.Value, hasSpread bool, spread refl
 			}
 			return reflect.Value{}, false
 		case cUnasserted:
+			if strings.Contains(r.why, whyNilPtr) {
+				p.nilPtr = true
+			}
 			if p.out == oOK || p.out == oWeak {
 				p.out = oNoCrash
 				p.why = "unasserted:" + r.why
@@ -81,6 +86,15 @@ func planCall(ft reflect.Type, args []reflect.Value, hasSpread bool, spread refl
 		return r.v, true
 	}
 
+	// the reported nil-pointer shape can be reached before anko checks the count: flag it
+	// whenever a supplied nil pointer could meet a parameter of another pointer type
+	for _, a := range append(append([]reflect.Value{}, args...), spread) {
+		for i := 0; i < nIn; i++ {
+			if nilPtrMeets(a, ft.In(i), 0) {
+				p.nilPtr = true
+			}
+		}
+	}
 	supplied := args
 	if !variadic && nIn == 0 && (hasSpread || len(args) > 0) {
 		// the repository's own tests pin that a parameterless function ignores whatever
@@ -257,4 +271,34 @@ func checkParams(ft reflect.Type, got []reflect.Value, p *plan) (int, string) {
 		}
 	}
 	return -1, ""
+}
+
+// nilPtrMeets reports whether v is (or, for lists, contains) a nil pointer and T is (or
+// contains as element type) a pointer type other than v's.
+func nilPtrMeets(v reflect.Value, T reflect.Type, d int) bool {
+	v = unwrap(v)
+	if !v.IsValid() || d > 3 {
+		return false
+	}
+	switch v.Kind() {
+	case reflect.Ptr:
+		if !v.IsNil() {
+			return false
+		}
+		for t := T; ; t = t.Elem() {
+			if t.Kind() == reflect.Ptr {
+				return t != v.Type()
+			}
+			if t.Kind() != reflect.Slice && t.Kind() != reflect.Array {
+				return false
+			}
+		}
+	case reflect.Slice, reflect.Array:
+		for i := 0; i < v.Len(); i++ {
+			if nilPtrMeets(v.Index(i), T, d+1) {
+				return true
+			}
+		}
+	}
+	return false
 }
